@@ -34,8 +34,20 @@ class OpTable:
                 v = dwtlib.dense(r["s_ref"], r["s_len"], L, N) if r["s_feasible"] else None
             elif which == "s_impl":
                 v = self._get(key, "s_ref") if r["s_same"] else dwtlib.dense(r["s_impl"], r["s_impl_len"], L, N)
+            elif which == "ab_impl":      # AFB1D.backward as the code performs it: [N][L][M]
+                v = np.transpose(self._get(key, "a_impl"), (2, 1, 0)) if r["ab_same"] else \
+                    dwtlib.dense(r["ab_impl"], N, L, r["a_impl_len"])
+            elif which == "sb_impl":      # SFB1D.backward: [M][L][P]
+                v = np.transpose(self._get(key, "s_impl"), (2, 1, 0)) if r["sb_same"] else \
+                    dwtlib.dense(r["sb_impl"], r["sb_impl_len"], L, r["s_impl_len"])
             self._cache[ck] = v
         return self._cache[ck]
+
+    def ab_impl(self, mode, N, L):
+        return self._get((mode, N, L), "ab_impl")
+
+    def sb_impl(self, mode, M, L):
+        return self._get((mode, M, L), "sb_impl")
 
     def a_ref(self, mode, N, L):
         return self._get((mode, N, L), "a_ref")
@@ -52,7 +64,7 @@ class OpTable:
 
 def run_ops(rep, tier, invariants, label="MC_DWT1_Ops", **over):
     c = models.model(models.DWT1_OPS, tier, **over)
-    res = tlc.run_model("MC_DWT1_Ops", c, invariants=list(invariants) + ["EmitOK"], shards=NCPU,
+    res = tlc.run_model("MC_DWT1_Ops", c, invariants=["EmitOK"] + list(invariants), shards=NCPU,
                         tag=label, timeout=3000)
     rep.add_tlc(res, label)
     design_check(rep, res, label)
@@ -61,7 +73,7 @@ def run_ops(rep, tier, invariants, label="MC_DWT1_Ops", **over):
 
 def run_calls(rep, tier, invariants, apis, label="DWT1Calls", **over):
     c = models.model(models.DWT1_CALLS, tier, Apis=set(apis), **over)
-    res = tlc.run_model("DWT1Calls", c, invariants=list(invariants) + ["EmitOK"], shards=NCPU,
+    res = tlc.run_model("DWT1Calls", c, invariants=["EmitOK"] + list(invariants), shards=NCPU,
                         tag=label, timeout=3000)
     rep.add_tlc(res, label)
     design_check(rep, res, label)
@@ -70,7 +82,7 @@ def run_calls(rep, tier, invariants, apis, label="DWT1Calls", **over):
 
 def run_calls2(rep, tier, invariants, apis, label="DWT2", **over):
     c = models.model(models.DWT2_CALLS, tier, Apis=set(apis), **over)
-    res = tlc.run_model("DWT2", c, invariants=list(invariants) + ["EmitOK"], shards=NCPU,
+    res = tlc.run_model("DWT2", c, invariants=["EmitOK"] + list(invariants), shards=NCPU,
                         tag=label, timeout=3000)
     rep.add_tlc(res, label)
     design_check(rep, res, label)
@@ -91,3 +103,36 @@ def design_check(rep, res, label):
     for inv, states in seen.items():
         rep.fail("%s: design-level invariant %s violated in %d state(s), e.g. %s" % (
             label, inv, len(states), states[0].replace("\n", " ")[:200]))
+
+
+def small_inv(tier):
+    """bounds of the inverse-call models (every None-mask multiplies the configurations)"""
+    if tier == "quick":
+        return dict(NSet=models.rng(2, 20), LSet=models.rng(2, 8, 2))
+    return dict(NSet=models.rng(2, 40), LSet=models.rng(2, 12, 2))
+
+
+def small_inv2(tier):
+    if tier == "quick":
+        return dict(HWCodes=models.code(models.sq(2, 7) | {(12, 3), (3, 12), (17, 2), (5, 17)}),
+                    LCodes=models.code(models.eqpairs([2, 4])))
+    return dict(HWCodes=models.code(models.sq(2, 12) | {(21, 3), (3, 21), (24, 5), (5, 24)}),
+                LCodes=models.code(models.eqpairs([2, 4, 6])))
+
+
+def grad_bounds(tier):
+    if tier == "quick":
+        return dict(NSet=models.rng(2, 16), LSet=models.rng(2, 8, 2))
+    return dict(NSet=models.rng(2, 32), LSet=models.rng(2, 12, 2))
+
+
+def grad_call_bounds(tier):
+    if tier == "quick":
+        return dict(NSet=models.rng(2, 12), LSet={2, 4, 6}, JMax=3)
+    return dict(NSet=models.rng(2, 24), LSet={2, 4, 6, 8}, JMax=4)
+
+
+def grad_call_bounds2(tier):
+    if tier == "quick":
+        return dict(HWCodes=models.code(models.sq(2, 6) | {(9, 3), (4, 9)}), LCodes=models.code(models.eqpairs([2, 4])), JMax=2)
+    return dict(HWCodes=models.code(models.sq(2, 10) | {(15, 3), (4, 15)}), LCodes=models.code(models.eqpairs([2, 4, 6])), JMax=3)
